@@ -138,8 +138,10 @@ def find_islands(im, bkg, rms,
                 continue
 
             island = PixelIsland()
+            # the box bounds the island's (unmasked) pixels whatever their
+            # value: a pixel value of exactly zero is still part of the island
             island.calc_bounding_box(
-                np.array(np.nan_to_num(data_box), dtype=bool),
+                np.logical_not(island_mask),
                 offsets=[xmin, ymin]
             )
             island.set_mask(island_mask)
